@@ -309,10 +309,9 @@ impl ArcExpression {
             }
             Bound(varname) => Some(binding.v.contains_key(varname.as_str()).into()),
             If(c, t, e) => {
-                if c.eval(binding, config, graph_matcher)?
-                    .is_truthy()
-                    .unwrap_or(false)
-                {
+                // an error in the condition (including a condition without effective boolean value)
+                // is an error of the whole IF (SPARQL 1.1, 17.4.1.2)
+                if c.eval(binding, config, graph_matcher)?.is_truthy()? {
                     t.eval(binding, config, graph_matcher)
                 } else {
                     e.eval(binding, config, graph_matcher)
